@@ -394,6 +394,7 @@ def cases(tier):
     for mapping in mappable_cases():
         out.append(("mappable",) + mapping)
     out += pair_cases(tier)
+    out += fracidx_cases(tier)
     return out
 
 
@@ -655,7 +656,81 @@ def run_mappable(qi, traps):
     return out + [("@mappable", "")]
 
 
+FRAC_IDX = (0.5, 0.8999999999999999, 1.5, 1.9999999, 2.5, 2.0000001, -0.5, 0.4999, 3.2)
+FRAC_WAYS = ("var", "v*3", "v/2", "item", "v+0.5")
+
+
+def fracidx_cases(tier):
+    """Index values that are NOT integral (what floating-point index arithmetic yields): the built sequence resolves them exactly as the
+    direct call does (or both refuse)."""
+    return [("fracidx", x, way, meth, m) for x in FRAC_IDX for way in FRAC_WAYS for meth in ("target_index", "phase_shift_index") for m in (False, True)]
+
+
+def run_fracidx(x, way, meth, mappable):
+    from pulser import Pulse
+
+    w = World(WORLD)
+
+    def prog(seq, idx):
+        seq.declare_channel("l", "raman_local", initial_target="q1")
+        seq.add(Pulse.ConstantPulse(52, 1.0, 0.0, 0.0, post_phase_shift=0.5), "l")
+        if meth == "target_index":
+            seq.target_index(idx, "l")
+        else:
+            seq.phase_shift_index(0.75, idx, basis="digital")
+        seq.add(Pulse.ConstantPulse(52, 1.0, 0.0, 0.25), "l")
+
+    with warnings.catch_warnings():
+        warnings.simplefilter("ignore")
+        d = w.fresh(apply_prefix=False)
+        try:
+            prog(d, x)
+            want = snapshot.snap(d, with_calls=False).key()
+        except Exception as e:
+            want = ("refused", type(e).__name__)
+        qmap = {}
+        if mappable:
+            t, mapping = mappable_template(w)
+            qmap = {"qubits": mapping}
+        else:
+            t = w.fresh(apply_prefix=False)
+        if way == "item":
+            v = t.declare_variable("v", size=3, dtype=float)
+            expr, val = v[1], [0.0, x, 0.0]
+        else:
+            v = t.declare_variable("v", dtype=float)
+            expr, val = {"var": (v, x), "v*3": (v * 3, x / 3), "v/2": (v / 2, x * 2), "v+0.5": (v + 0.5, x - 0.5)}[way]
+            if way != "var":  # the value the expression really evaluates to
+                ev = {"v*3": np.float64(val) * 3, "v/2": np.float64(val) / 2, "v+0.5": np.float64(val) + 0.5}[way]
+                if float(ev) != x:
+                    dd = w.fresh(apply_prefix=False)
+                    try:
+                        prog(dd, float(ev))
+                        want = snapshot.snap(dd, with_calls=False).key()
+                    except Exception as e:
+                        want = ("refused", type(e).__name__)
+        try:
+            prog(t, expr)
+        except Exception as e:
+            return gridx.crash_finding(e, "writing-the-template", f"{x} {way} {meth}") or [("@template-refused", "")]
+        try:
+            b = t.build(v=val, **qmap)
+            sb = snapshot.snap(b, with_calls=False)
+            got = sb.key()
+        except Exception as e:
+            got = ("refused", type(e).__name__)
+        if got != want:
+            what = "refused" if got[0] == "refused" else ("accepted" if want[0] == "refused" else "differs")
+            detail = ""
+            if what == "differs":
+                detail = f"; targets after the call: built {[sl.targets for sl in sb.channels['l'].slots]}"
+            return [(f"C08:non-integral-index:{meth}:{'mappable:' if mappable else ''}build-{what}", f"index value {x!r} through {way}: direct construction {'refused' if want[0] == 'refused' else 'accepted'}{detail}"[:300])]
+    return [("@fracidx", "")]
+
+
 def worker(case):
+    if case[0] == "fracidx":
+        return run_fracidx(*case[1:])
     if case[0] == "pairs":
         return run_pairs(case[1], case[2], case[3])
     if case[0] in ("prog", "progm"):
@@ -676,13 +751,13 @@ def run(tier, seed):
             if fp.startswith("@"):
                 classes[fp] = classes.get(fp, 0) + 1
             else:
-                if c[0] == "pairs":
+                if c[0] in ("pairs", "fracidx"):
                     res.add(Violation(fp, d, {"engine": "progx", "case": list(c)}, size=0))
                     continue
                 res.add(Violation(fp, d, {"engine": "progx", "case": [c[0], c[1], c[2] if c[0] not in ("prog", "progm") else {str(k): v for k, v in c[2].items()}]},
                                   size=len(c[2]) if c[0] in ("prog", "progm") else 0))
     res.coverage = dict(
-        evaluations=len(cs), distinct_nontrivial=classes.get("@compared", 0) + classes.get("@mappable", 0) + classes.get("@pairs", 0), exhaustive=True,
+        evaluations=len(cs), distinct_nontrivial=classes.get("@compared", 0) + classes.get("@mappable", 0) + classes.get("@pairs", 0) + classes.get("@fracidx", 0), exhaustive=True,
         outcome_classes=classes,
         rule="7 skeleton programs (pulses of every waveform class, delays, phase shifts, EOM with drift correction, DMM, index targeting, "
              "XY) x every subset of their numeric argument positions replaced by variable expressions (14 expression kinds rotating; "
@@ -702,4 +777,6 @@ def replay(payload):
         return [Violation(fp, d, payload) for fp, d in worker((c[0], c[1], {int(k): v for k, v in c[2].items()})) if not fp.startswith("@")]
     if c[0] == "pairs":
         return [Violation(fp, d, payload) for fp, d in run_pairs(c[1], c[2], c[3]) if not fp.startswith("@")]
+    if c[0] == "fracidx":
+        return [Violation(fp, d, payload) for fp, d in run_fracidx(*c[1:]) if not fp.startswith("@")]
     return [Violation(fp, d, payload) for fp, d in run_mappable(c[1], tuple(c[2])) if not fp.startswith("@")]
